@@ -71,10 +71,19 @@ def simplify_latent_dag(graph: nx.DiGraph, *, tag: str | None = None) -> Simplif
 
     _assert_variable_nodes(graph)
 
-    _ = transform_latents_with_parents(graph, tag=tag)
-    _, widows = remove_widow_latents(graph, tag=tag)
-    _, unidirectional_latents = remove_unidirectional_latents(graph, tag=tag)
-    _, redundant = remove_redundant_latents(graph, tag=tag)
+    widows: set[Variable] = set()
+    unidirectional_latents: set[Variable] = set()
+    redundant: set[Variable] = set()
+    while True:  # removing a latent can make another rule applicable again
+        _ = transform_latents_with_parents(graph, tag=tag)
+        _, new_widows = remove_widow_latents(graph, tag=tag)
+        _, new_unidirectional_latents = remove_unidirectional_latents(graph, tag=tag)
+        _, new_redundant = remove_redundant_latents(graph, tag=tag)
+        if not (new_widows or new_unidirectional_latents or new_redundant):
+            break
+        widows.update(new_widows)
+        unidirectional_latents.update(new_unidirectional_latents)
+        redundant.update(new_redundant)
 
     return SimplifyResults(
         graph=graph,
